@@ -36,9 +36,10 @@ class P(ServeProp):
             meth = rnd.choice(["GET", "GET", "OPTIONS", "OPTIONS", "HEAD", "POST"])
             hs = []
             if rnd.random() < 0.85:
-                hs.append("Origin: " + gs.gen_origin(rnd, origins))
+                hs.append(rnd.choice(["Origin"] * 6 + ["origin", "ORIGIN", "oRiGiN"]) + ": " + gs.gen_origin(rnd, origins))
+                if rnd.random() < 0.06: hs.append("Origin: " + gs.gen_origin(rnd, origins))      # a second Origin header: the first one counts
             if meth == "OPTIONS" and rnd.random() < 0.7:
-                hs += ["Access-Control-Request-Method: " + rnd.choice(["PUT", "DELETE", "x"]), "Access-Control-Request-Headers: " + rnd.choice(["X-A, Content-Type", "x-b", ""])]
+                hs += ["Access-Control-Request-Method: " + rnd.choice(["PUT", "DELETE", "x"]), rnd.choice(["Access-Control-Request-Headers", "access-control-request-headers"]) + ": " + rnd.choice(["X-A, Content-Type", "x-b", "", "X-é, a", "AUTHORIZATION"])]
             if rnd.random() < 0.1:
                 hs.append("Range: bytes=0-1")
             kind = "serveL" if rnd.random() < 0.2 else "serve"
@@ -95,4 +96,4 @@ class P(ServeProp):
         return None
 
     def nontrivial(self, line, out):
-        return b"Origin: " in gs.parse_case(line)["req"]
+        return b"origin: " in gs.parse_case(line)["req"].lower()
